@@ -298,6 +298,12 @@ impl<'a> Explorer<'a> {
             known: Default::default(),
         };
         let mut pending_novel: Vec<(usize, Vec<Op>, Vec<u8>)> = vec![];
+        // post-fault states are deduplicated as they arrive (the U4 closure of the thorough
+        // tier produces billions of them: keeping every one exhausted 62 GB), by a 64-bit
+        // hash of the canonical key, and their number is capped - shortest histories come
+        // first because the exploration is breadth-first
+        let mut novel_hashes: std::collections::HashSet<u64> = std::collections::HashSet::new();
+        const NOVEL_CAP: usize = 2_000_000;
         // a step that hung or killed the engine in an earlier attempt and that
         // this property owns is a verdict by itself: report it with its full
         // history and stop
@@ -409,7 +415,18 @@ impl<'a> Explorer<'a> {
                 let proot = self.states[parent as usize].root as usize;
                 for (h, k) in out.novel {
                     res.fault_states += 1;
-                    pending_novel.push((proot, h, k));
+                    if pending_novel.len() >= NOVEL_CAP || self.seen.contains_key(&k[..]) {
+                        continue;
+                    }
+                    let hk = {
+                        use std::hash::{Hash, Hasher};
+                        let mut hs = std::collections::hash_map::DefaultHasher::new();
+                        k.hash(&mut hs);
+                        hs.finish()
+                    };
+                    if novel_hashes.insert(hk) {
+                        pending_novel.push((proot, h, k));
+                    }
                 }
                 for (oi, k) in out.new {
                     if !self.seen.contains_key(&k[..]) {
